@@ -567,13 +567,31 @@ def judge(sc: Dict[str, Any], obs: Dict[str, Any], ref: Dict[str, Any]) -> List[
     if obs["status"] != 0:
         out.append(("nonzero-exit-on-success", f"exit status {obs['status']} with stderr {stderr[:200]!r} for a valid query and document"))
         return out
-    if primary not in ref["outputs"]:
-        out.append(("wrong-output", f"output {primary[:200]!r} != json.dumps(find(q, doc).values()) {ref['outputs'][0][:200]!r}"))
+    if primary not in ref["outputs"] and not _json_equivalent(primary, ref["outputs"]):
+        out.append(("wrong-output", f"output {primary[:200]!r} is not the JSON array json.dumps(find(q, doc).values()) = {ref['outputs'][0][:200]!r}"))
     if other:
         out.append(("other-channel-not-empty", f"stdout has {other[:100]!r} although -o was given"))
-    if stderr:
-        out.append(("stderr-noise-on-success", f"stderr {stderr[:200]!r} on a successful run"))
+    # (something on stderr next to a correct result and exit 0 -- a warning, say -- is not
+    # forbidden by the statement; it is counted, not judged)
     return out
+
+
+def _json_equivalent(primary: str, outputs: List[str]) -> bool:
+    """The statement asks for "exactly the JSON array", not for particular white space: an
+    output that parses to the same typed value (int/float/bool/null/string distinctions,
+    member order, NaN) as one of the reference outputs is that array, however it is
+    indented or terminated.  Anything that does not parse as one JSON text is not."""
+    try:
+        got = D.canon(json.loads(primary))
+    except (ValueError, RecursionError):
+        return False
+    for o in outputs:
+        try:
+            if got == D.canon(json.loads(o)):
+                return True
+        except (ValueError, RecursionError):
+            continue
+    return False
 
 
 def run_scenario(sc: Dict[str, Any]) -> Dict[str, Any]:
@@ -615,6 +633,8 @@ def run_one(seed: int, tier: str, index: int) -> Dict[str, Any]:
     st["opt_o"] += sc["out"] == "-o"
     st["short_read_runs"] += bool(sc["chunks"])
     st["probe_short_read_split_multibyte"] += 1 if obs["split_multibyte"] else 0
+    if ref["expect"] == "ok" and obs["status"] == 0 and obs["stderr"]:
+        st["note_stderr_text_on_success"] += 1
     if sc["qfile_fault"] != "none":
         st[f"fault_queryfile_{sc['qfile_fault']}"] += 1
     if ref["expect"] == "fail" and ref["phase"] == "evaluate":
